@@ -49,7 +49,7 @@ func (c11) Mandatory(tier string) []string {
 	return []string{"region:armor-header", "region:hash-header", "region:body", "region:signature-armor", "region:trailer", "edit:substitute", "edit:delete", "edit:insert", "edit:truncate",
 		"outcome:both-reject", "outcome:both-accept-equal", "untampered-accepted", "splice:foreign-before", "splice:foreign-before-blank", "splice:field-inside", "splice:text-before-signature",
 		"splice:text-after-end", "splice:foreign-block-before", "splice:foreign-block-after", "splice:duplicate-signature", "splice:hash-header", "keyring:signer", "keyring:signer+others",
-		"keyring:others", "keyring:empty", "keyring:nil-list", "entry:ParagraphReader", "entry:Decoder", "sequence:keyring-mutated-between-reads", "unsigned:no-signer", "source:onebyte", "source:chunk7", "source:chunk14", "source:data+EOF", "source:os.Pipe", "doc:signed-bytes-are-not-utf8", "doc:signed-line>=64KiB"}
+		"keyring:others", "keyring:empty", "keyring:nil-list", "entry:ParagraphReader", "entry:Decoder", "sequence:keyring-mutated-between-reads", "unsigned:no-signer", "source:onebyte", "source:chunk7", "source:chunk14", "source:data+EOF", "source:os.Pipe", "doc:signed-bytes-are-not-utf8", "doc:signed-line>=64KiB", "doc:crlf-line-ends-throughout"}
 }
 
 type c11Case struct {
@@ -480,6 +480,12 @@ func (p c11) RunBatch(t *core.T, b core.Batch) {
 			}
 			signer := r.Intn(2)
 			doc := clearsignDoc(text, keys[signer])
+			if i%8 == 6 {
+				// the whole document with CR LF line ends, armor lines included (a mail gateway, a Windows editor): the
+				// signature covers the canonical text, which has CR LF ends anyway
+				doc = bytes.ReplaceAll(doc, []byte("\n"), []byte("\r\n"))
+				t.Cover("doc:crlf-line-ends-throughout")
+			}
 			p.emit(t, c11Case{Input: doc, Keyring: serializeKeyring([]*openpgp.Entity{keys[signer]}), Fault: "none"}, "keyring:signer")
 			p.emit(t, c11Case{Input: doc, Keyring: serializeKeyring([]*openpgp.Entity{keys[2], keys[signer], keys[1-signer]}), Fault: "none"}, "keyring:signer+others")
 			p.emit(t, c11Case{Input: doc, Keyring: serializeKeyring([]*openpgp.Entity{keys[2], keys[1-signer]}), Fault: "keyring-others"}, "keyring:others")
